@@ -359,6 +359,7 @@ Definition expected_methods : list (string * string) :=
     ("Flushable","Stat"); ("Flushable","Compact"); ("Flushable","GetSnapshot"); ("Flushable","NewBatch");
     ("flushableReader","Has"); ("flushableReader","Get"); ("flushableReader","NewIterator");
     ("LazyFlushable","InitUnderlyingDb"); ("LazyFlushable","Flush"); ("Snapshot","Release");
+    ("flushableIterator","Next"); ("flushableIterator","Key"); ("flushableIterator","Value"); ("flushableIterator","Release");
     ("SyncedPool","Initialize"); ("SyncedPool","OpenDB"); ("SyncedPool","GetUnderlying"); ("SyncedPool","Flush");
     ("SyncedPool","NotFlushedSizeEst"); ("SyncedPool","Names"); ("SyncedPool","Close");
     ("Cache","Purge"); ("Cache","Add"); ("Cache","Get"); ("Cache","Contains"); ("Cache","Peek");
@@ -381,7 +382,9 @@ Example C28_table_spot_checks :
     = Some (LShared, 0%N, 0%N) /\
   option_map (fun r => (r_mode r, N.ltb 0 (r_writes r))) (find_row lock_table "Cache" "Get") = Some (LExcl, true) /\
   option_map (fun r => (r_mode r, r_condwait r)) (find_row lock_table "DataSemaphore" "Acquire") = Some (LExcl, true) /\
-  option_map (fun r => (r_mode r, r_unlocked_reads r)) (find_row lock_table "EventsBuffer" "Total") = Some (LNone, 1%N).
+  option_map (fun r => (r_mode r, r_unlocked_reads r)) (find_row lock_table "EventsBuffer" "Total") = Some (LNone, 1%N) /\
+  option_map (fun r => (r_mode r, N.ltb 0 (r_reads r), r_writes r)) (find_row lock_table "flushableIterator" "Next")
+    = Some (LShared, true, 0%N).
 Proof. vm_compute. repeat split; reflexivity. Qed.
 
 Print Assumptions C28_locked_refines_atomic.
